@@ -71,7 +71,7 @@ fn gen_c21(rng: &mut Rng, regime: &str, tier: Tier) -> Value {
         } else if rng.chance(p_publish) {
             let mut p = json!({"op": "publish", "n": rng.urange(1, 3), "ack": *rng.pick(&["all", "all", "all", "none"])});
             if regime == "c40" {
-                p["ack"] = json!(*rng.pick(&["all", "all", "none", "dup", "unknown", "badsub"]));
+                p["ack"] = json!(*rng.pick(&["all", "all", "none", "newest", "newest", "dup", "unknown", "badsub"]));
             }
             if regime == "c26" {
                 p["ts"] = json!(*rng.pick(&["now", "now", "past", "future", "null", "min", "max"]));
